@@ -28,8 +28,171 @@ l2_harness!(c02c04_l1_at_set_tables, 70, {
     let p = l1::any_state(1);
     let k = p.peek();
     assert!(p.at_set(&value::VALUE_START) == is_value_start(k), "VALUE_START == summary");
-    assert!(p.at_set(&r#type::TYPE_FIRST_TOKENS) == is_type_first(k), "TYPE_FIRST_TOKENS == summary");
+    assert!(p.at_set(&type_::TYPE_FIRST_TOKENS) == is_type_first(k), "TYPE_FIRST_TOKENS == summary");
     assert!(p.at_set(&RECOVER_TOKENS) == is_recover(k), "RECOVER_TOKENS == summary");
     assert!(p.at(k) && p.eof() == (k == K::Eof));
     std::mem::forget(p);
 });
+
+// ---------------------------------------------------------------------------
+// L2 runtime: callee contracts and the unit judgement.  The tables (FIRST/CONT sets, NFAs of
+// the documented right-hand sides, stub functions, unit harnesses) are generated from
+// lib/grammar.py into rules_gen.rs at run time.
+
+use crate::parser::{CompletedMarker, Parser};
+
+pub struct RuleInfo {
+    pub id: u8,
+    pub nullable: bool,
+    /// the rule always consumes at least one token unless the look-ahead is Eof
+    pub progress: bool,
+}
+
+/// generative mode: the stream is a sentence of the unit's rule (assumed through the NFA), so
+/// every callee placeholder is well formed: contracts answer ok / empty deterministically
+pub static mut G_GMODE: bool = false;
+
+/// contract of a callee rule R, standing in for its real body:
+///   ok   : look-ahead in FIRST(R); one token is consumed and stands for a whole well-formed R;
+///          afterwards the look-ahead cannot continue R (maximal munch)
+///   empty: (nullable R only) nothing consumed, no error, look-ahead not in FIRST(R)
+///   fail : >= 1 error; consumes one token if R guarantees progress, else 0 or 1 (never a
+///          recovery token or Eof); error-suppression flag arbitrary afterwards
+/// returns true for ok/empty.  (closures, not fn pointers: CBMC expands an indirect call into a
+/// switch over every function of that type)
+#[inline(always)]
+pub fn contract(p: &mut Parser, r: &RuleInfo, first: impl Fn(K) -> bool, cont: impl Fn(K) -> bool) -> bool {
+    let la = p.peek();
+    let gmode = unsafe { G_GMODE };
+    let mut choice: u8 = kani::any();
+    kani::assume(choice < 3);
+    if gmode {
+        choice = if first(la) { 0 } else if r.nullable { 1 } else { 2 };
+    }
+    if choice == 0 {
+        kani::assume(first(la));
+        l1::log_event(l1::EV_OK, r.id, la as u8);
+        unsafe {
+            l1::G_IN_CONTRACT = true;
+        }
+        p.eat();
+        unsafe {
+            l1::G_IN_CONTRACT = false;
+        }
+        kani::assume(!cont(p.peek()));
+        return true;
+    }
+    if choice == 1 {
+        kani::assume(r.nullable);
+        kani::assume(!first(la));
+        return true;
+    }
+    // a rule that may derive the empty string / decline only fails after it has entered one of
+    // its alternatives
+    if r.nullable {
+        kani::assume(first(la));
+    }
+    unsafe {
+        l1::G_ERRS += 1;
+    }
+    l1::log_event(l1::EV_FAIL, r.id, la as u8);
+    let eat_one: bool = kani::any();
+    let may_eat = la != K::Eof && (r.progress || !is_recover(la));
+    if (r.progress && la != K::Eof) || (eat_one && may_eat) {
+        unsafe {
+            l1::G_IN_CONTRACT = true;
+        }
+        p.eat();
+        unsafe {
+            l1::G_IN_CONTRACT = false;
+        }
+    }
+    let ae: bool = kani::any();
+    l1::l2_set_after_error(p, ae);
+    false
+}
+
+pub fn marker(ok: bool) -> CompletedMarker {
+    if ok { CompletedMarker::Success } else { CompletedMarker::Fail }
+}
+
+/// judgement after the real rule function returned (recogniser mode): `accepted` = the
+/// documented right-hand side accepts the sequence of tokens / callee placeholders consumed
+pub fn unit_judge(p: &mut Parser, accepted: bool, viable: bool, progress: bool, entry_after_error: bool, la0: K, kf_region: bool) {
+    let errs = unsafe { l1::G_ERRS };
+    let nev = unsafe { l1::G_NEV };
+    unsafe {
+        assert!(l1::G_DEPTH == 0 && l1::G_MIN_DEPTH >= 0, "C02/C04: node events are balanced");
+    }
+    assert!(l1::inv(p), "C01: the unit leaves the parser in a lossless state");
+    assert!(nev <= l1::EVCAP, "event log large enough");
+    if !entry_after_error {
+        if kf_region {
+            kani::cover!((errs == 0) != accepted, "I: known-finding region exercised");
+        } else {
+            if errs == 0 {
+                // a rule cut short by the end of input may stop silently on a viable prefix (the
+                // `while !p.eof()` loops): the enclosing rule then misses a required token
+                assert!(accepted || (p.eof() && viable), "C04: zero syntax errors only if the consumed sequence matches the documented right-hand side");
+            }
+            if accepted {
+                assert!(errs == 0, "C04: a consumed sequence matching the documented right-hand side yields no syntax error");
+            }
+        }
+    }
+    if progress && la0 != K::Eof {
+        assert!(l1::l2_consumed(p) >= 1, "C02: the rule consumes at least one token");
+    }
+    kani::cover!(errs == 0 && accepted && nev >= 2, "I: an accepted sentence with >= 2 constituents");
+    kani::cover!(errs == 0 && accepted, "W: an accepted sentence");
+    kani::cover!(errs > 0, "W: an error path");
+}
+
+/// judgement in generative mode: the stream is a sentence of the rule (all n tokens)
+pub fn gen_judge(p: &mut Parser, kf_region: bool) {
+    let errs = unsafe { l1::G_ERRS };
+    unsafe {
+        assert!(l1::G_DEPTH == 0 && l1::G_MIN_DEPTH >= 0, "C02/C04: node events are balanced");
+    }
+    let all = l1::l2_consumed(p) == l1::l2_ntok(p);
+    if kf_region {
+        kani::cover!(errs > 0 || !all, "I: known-finding region exercised");
+    } else {
+        assert!(errs == 0, "C04: every sentence of the documented rule parses with zero syntax errors");
+        assert!(all, "C04: the rule function consumes the whole sentence");
+    }
+    kani::cover!(l1::l2_ntok(p) >= 3, "I: a sentence of >= 3 constituents");
+    kani::cover!(l1::l2_ntok(p) >= 1, "W: a non-empty sentence");
+}
+
+// known-finding regions (narrow predicates over the symbolic input), see known_findings.json
+use crate::verif_kf as kf;
+
+/// documented `Dag ::= "(" DagArg DagArgList? ")"`, but the parser (like llvm-tblgen) only
+/// accepts an identifier, `?`, `!cast` or `!getdagop` as the first token of the operator
+pub fn kf_region_dag(p: &Parser) -> bool {
+    let k1 = l1::l2_kind_at(p, 1);
+    kf::C04_DAG_OPERATOR_RESTRICTED
+        && l1::l2_kind_at(p, 0) == K::LParen
+        && (gen::first_DagArg)(k1)
+        && !matches!(k1, K::Id | K::XCast | K::Question | K::XGetDagOp)
+}
+
+/// documented `CondOperator ::= CONDOP "(" CondClause ("," CondClause)* ")"`, but `!cond()` is accepted
+pub fn kf_region_cond_operator(p: &Parser) -> bool {
+    kf::C04_COND_WITHOUT_CLAUSE
+        && l1::l2_kind_at(p, 0) == K::XCond
+        && l1::l2_kind_at(p, 1) == K::LParen
+        && l1::l2_kind_at(p, 2) == K::RParen
+}
+
+/// documented `SliceElement ::= Value | Value "..." Value | Value "-" Value | Value Integer`,
+/// but any Value is accepted as the second element (`x[1 "s"]` parses clean)
+pub fn kf_region_slice_element(p: &Parser) -> bool {
+    let k1 = l1::l2_kind_at(p, 1);
+    // the second element is parsed through value(): whatever starts a value is accepted, and a
+    // placeholder starting with an integer stands for any value (`1{2}`), not just an Integer
+    kf::C04_SLICE_ELEMENT_SECOND_VALUE && is_value_start(k1)
+}
+
+include!("rules_gen.rs");
